@@ -206,11 +206,17 @@ def run(ck, fx, cg, tier):
                             callee_name(x) == A.get("cli.ast.serialize") for x, _ in walk(st["init"]) if x.get("k") in ("Call", "MethodCall")):
                         res = st["pat"]["lid"]
         writes = [n for n, ps in walk_body(pa) if n.get("k") == "MethodCall" and n["name"] in ("write_fmt", "write_all", "write")]
-        ok = res is not None and len(writes) == 1 and writes[0]["name"] == "write_fmt"
-        if ok:
+        ok = res is not None and len(writes) == 1 and writes[0]["name"] in ("write_fmt", "write_all")
+        if ok and writes[0]["name"] == "write_fmt":
             fa = [x for x, _ in walk(writes[0]) if x.get("k") == "FormatArgs"]
             ok = len(fa) == 1 and fmt_pieces(fa[0]) == "{0}" and local_of(fa[0]["args"][0]) and local_of(fa[0]["args"][0])[0] == res
-        ck.ob("R6.sinks", "parse writes exactly the serialized AST", ok, loc(pa), "one write!(sink, \"{}\", <serializer output>): %s" % ok)
+        elif ok:
+            # sink.write_all(result.as_bytes())
+            a0 = peel(writes[0]["args"][0])
+            while a0.get("k") in ("AddrOf", "Unary") or (a0.get("k") == "MethodCall" and a0["name"] in ("as_bytes", "as_str", "as_ref", "borrow")):
+                a0 = peel(a0["recv"] if a0.get("k") == "MethodCall" else a0["e"])
+            ok = bool(local_of(a0)) and local_of(a0)[0] == res
+        ck.ob("R6.sinks", "parse writes exactly the serialized AST", ok, loc(pa), "one complete write of the serializer's output (write!(sink, \"{}\", out) or write_all(out bytes)): %s" % ok)
         # what is parsed is the selected input
     # output files are created/truncated: a shorter output over an older, longer file must not keep its tail
     from . import shared
